@@ -71,3 +71,25 @@ lincomb_n!(c09_k8_lincomb_3_lz1, 3, Uint::new([Limb(shaped_word(2) | 1), Limb(0x
 lincomb_n!(c09_k8_lincomb_2_top, 2, Uint::new([Limb(shaped_word(2) | 1), Limb(0xfc | (kani::any::<u8>() & 3))]));
 //@ name=c09_k8_lincomb_4_lz2 prop=C09,C11 tier=thorough profile=k8 funcs="MontyForm::lincomb_vartime,lincomb_monty_form" bound="u8 words, 2 limbs, 4 terms = one full window for 2 leading zero bits (m=[S(2)|1, 0x3c..0x3f])" free_bits=29
 lincomb_n!(c09_k8_lincomb_4_lz2, 4, Uint::new([Limb(shaped_word(2) | 1), Limb(0x3c | (kani::any::<u8>() & 3))]));
+
+//@ prop=C09,C11,C08 tier=quick profile=k8 funcs="MontyParams::new_vartime,MontyParams::new (leading-zero clamp),MontyForm::lincomb_vartime,lincomb_monty_form" bound="u8 words, 2 limbs, modulus with a zero high limb m=[S(2)|1, 0] >= 3 (8 or more leading zero bits, incl. exactly Limb::BITS), parameters from both constructors, 1 term within 2 of 0 or m: no overflow trap, result = the REDC product" free_bits=8 core=C11
+#[kani::proof]
+#[kani::unwind(12)]
+fn c09_k8_lincomb_constructed_params_high_limb_zero() {
+    let m = Uint::<2>::new([Limb(shaped_word(2) | 1), Limb(0)]);
+    let mm = to_u64(&m);
+    kani::assume(mm >= 3);
+    let ninv16: u16 = kani::any();
+    kani::assume(ninv16.wrapping_mul(mm as u16).wrapping_add(1) == 0);
+    let vt: bool = kani::any();
+    let params = if vt { MontyParams::new_vartime(Odd::new(m).unwrap()) } else { MontyParams::new(Odd::new(m).unwrap()) };
+    assert!(params.mod_leading_zeros == 7); // clamped to Word::BITS - 1
+    let (x0, y0): (Uint<2>, Uint<2>) = (near(mm), near(mm));
+    let a = MontyForm::from_montgomery(x0, params);
+    let b = MontyForm::from_montgomery(y0, params);
+    let r = MontyForm::lincomb_vartime(&[(&a, &b)]);
+    let want = redc2((to_u64(&x0) as u32) * (to_u64(&y0) as u32), mm as u32, ninv16 as u32);
+    assert!(to_u64(r.as_montgomery()) as u32 == want);
+    kani::cover!(mm == 0xff && vt);
+    kani::cover!(mm == 3 && !vt);
+}
